@@ -19,6 +19,7 @@ verus! {
 //@include spec/shape.spec.rs
 //@include spec/driver_std.spec.rs
 //@include spec/binding.spec.rs
+//@include spec/binding_lemmas.spec.rs
 
 impl Signal {
 //@decl Signal.is_input
